@@ -129,6 +129,11 @@ def space(tier):
         if not (conc and quick):
             units.append(({"program": p, "cfg": {"env_kinds": ["fault"], "faults": ["5xx", "4xx"], "timer_choices": True}},
                           {"fault": 1, "thread": 1, "timer": 1, "total": 2}, cap))
+    # paginated checkpoint responses (and paginated histories) whose follow-up GetDurableExecutionState call fails
+    for sh in ("S+S", "H", "P", "W+S", "Sm"):
+        p = P.program(tuple(sh.split("+")))
+        units.append(({"program": p, "cfg": {"env_kinds": ["fault", "page"], "faults": [], "state_faults": ["5xx", "4xx"],
+                                             "page_modes": [4, 1]}}, {"fault": 1, "page": 1, "total": 2}, cap))
     big = {"name": "S+bigresult", "seq": P.U("S"), "ret": {"pad": 6 * 1024 * 1024}}
     units.append(({"program": big, "cfg": {"env_kinds": ["fault"], "faults": FAULTS}}, {"fault": 1, "total": 1}, cap))
     # callers queued behind the failing in-flight call (50 ms API latency, step bodies of 120 ms)
